@@ -296,7 +296,7 @@ def _summarize(prog, qual, own=True):
         if isinstance(st, ast.For):
             names = [t.id for t in ast.walk(st.target) if isinstance(t, ast.Name)]
             it = lp["iter"]
-            ik = it.key() if isinstance(it, Rat) else repr(it)
+            ik = _iteration_space(it).key() if isinstance(it, Rat) else repr(it)     # range(0, n) and range(n) are one loop
             # a loop is identified by what it iterates over and by its nesting depth (not by the name of its variable, nor by the order
             # in which branches of an if are written); sequential loops over the same thing may share the symbol (alpha-renaming)
             tag = "L" + hashlib.md5(ik.encode()).hexdigest()[:8] + "d%d" % lp.get("depth", 0)
@@ -398,6 +398,13 @@ def _summarize(prog, qual, own=True):
             v = e.get("value")
             S.effects.setdefault((e["kind"], ckey(v, e["conds"])), []).append(pre)
             S.raw.append(("effect", e["kind"], (craw(v),), pre))
+            continue
+        if e["kind"] == "assign" and "." in str(e.get("name") or "") and not str(e["name"]).startswith("self.") and isinstance(e.get("obj"), Rat) \
+                and not _is_fresh(e["obj"]):
+            # attribute of an object that was not created here (a parameter, an element of a container): visible to the caller
+            key = ("setattr", ckey(e["obj"], e["conds"]), str(e["name"]).rsplit(".", 1)[1], ckey(e["value"], e["conds"]))
+            S.effects.setdefault(key, []).append(pre)
+            S.raw.append(("effect", "setattr:" + str(e["name"]).rsplit(".", 1)[1], (craw(e["obj"]), craw(e["value"])), pre))
             continue
         if e["kind"] == "store":
             old = e.get("old")
